@@ -632,11 +632,44 @@ def build_action(cfg):
     return Built(cls(shape, **kw))
 
 
+_USER_RW = {}
+
+
+def user_rw(spelling):
+    """csr.FieldAction subclasses written the way gpio.Peripheral.Output._FieldAction is: the behaviour of
+    action.RW plus one more input, with the extra members handed to FieldAction.__init__ as a dict, a tuple of
+    pairs, a generator of pairs or a zip (the documented type is an iterable of pairs)."""
+    if spelling not in _USER_RW:
+        from amaranth import Module, Signal
+        from amaranth.hdl import Shape
+        from amaranth.lib.wiring import In, Out
+        from amaranth_soc import csr
+
+        class UserRW(csr.FieldAction):
+            def __init__(self, shape, *, init=0):
+                pairs = [("data", Out(shape)), ("poke", In(1))]
+                members = [dict(pairs), tuple(pairs), (p for p in pairs), zip(*zip(*pairs))][spelling]
+                super().__init__(shape, access="rw", members=members)
+                self._storage = Signal(shape, init=init)
+
+            def elaborate(self, platform):
+                m = Module()
+                with m.If(self.port.w_stb | self.poke):
+                    m.d.sync += self._storage.eq(self.port.w_data)
+                m.d.comb += [self.port.r_data.eq(self._storage), self.data.eq(self._storage)]
+                return m
+        _USER_RW[spelling] = UserRW
+    return _USER_RW[spelling]
+
+
 def mk_fields(spec):
     from amaranth_soc import csr
     t = spec[0]
     if t == "f":
         cls, shape, kw = mk_action_args(spec[1])
+        key = len(repr(spec[1]))
+        if spec[1]["kind"] == "RW" and key % 3 == 0:
+            cls = user_rw(key // 3 % 4)       # a user-defined field action doing what RW does
         return csr.Field(cls, shape, **kw)
     if t == "d":
         return {k: mk_fields(v) for k, v in spec[1]}
